@@ -21,14 +21,18 @@ import (
 
 // JobGroup describes one harness entry point and how many jobs (argument tuples) it has per tier.
 type JobGroup struct {
-	Name     string
-	Overlay  map[string][]string // short pkg -> harness files
-	Pkg      string              // short package of the entry
-	Entry    string
-	Args     func(tier string, l *Loaded) [][]int64 // argument tuples
-	Budget   int64
-	MaxPaths int64
-	Solver   string
+	Name        string
+	Overlay     map[string][]string // short pkg -> harness files
+	Pkg         string              // short package of the entry
+	Entry       string
+	Args        func(tier string, l *Loaded) [][]int64 // argument tuples
+	Budget      int64
+	MaxPaths    int64
+	MaxFailures int // stop a job after this many failing paths (0 = 5000)
+	// Lemma: the group checks an inductive step from a constructed state; its native replay only confirms a
+	// failure through a history of public calls, so an unconfirmed one is a lemma that does not fit, not an engine error
+	Lemma  bool
+	Solver string
 	// PanicOK: panics on explored paths are not violations of this property (they are reported by C09/C08 harnesses)
 	PanicOK bool
 	// BudgetIsViolation: exhausting the instruction budget is a candidate non-termination (C08/C10)
@@ -199,6 +203,7 @@ func cmdCheck(argv []string) int {
 		}
 	}
 	inconclusive := []string{}
+	unprovedSeen := map[string]bool{}
 	violations := []string{}
 	knownHits := map[string]bool{}
 	totalReplays := 0
@@ -280,6 +285,13 @@ func cmdCheck(argv []string) int {
 				case "unsupported":
 					inconclusive = append(inconclusive, fmt.Sprintf("%s%v: unsupported: %s", g.Name, jr.args, o.Msg))
 					continue
+				case "unproved":
+					msg := fmt.Sprintf("%s%v: UNPROVED %s", g.Name, jr.args, o.Msg)
+					if !unprovedSeen[msg] {
+						unprovedSeen[msg] = true
+						inconclusive = append(inconclusive, msg)
+					}
+					continue
 				case "budget":
 					if !g.BudgetIsViolation {
 						inconclusive = append(inconclusive, fmt.Sprintf("%s%v: unwinding budget exhausted at %s", g.Name, jr.args, innermostRepoFunc(o.Site)))
@@ -332,6 +344,14 @@ func cmdCheck(argv []string) int {
 				totalReplays += len(rfs)
 			}
 			for i, rf := range rfs {
+				if !confirmed[i] && g.Lemma {
+					msg := fmt.Sprintf("LEMMA-NOT-CONFIRMED %s: the inductive step fails from a constructed state (%s) but no history of public calls around it shows wrong behaviour; the representation invariant the harness assumes does not fit this implementation, so the unbounded part of the claim is lost", g.Name, rf.Msg)
+					if !unprovedSeen[msg] {
+						unprovedSeen[msg] = true
+						inconclusive = append(inconclusive, msg)
+					}
+					continue
+				}
 				if !confirmed[i] {
 					inconclusive = append(inconclusive, fmt.Sprintf("ENGINE-MISMATCH %s: model does not reproduce natively (%s)", rf.Sig, rf.Msg))
 					fmt.Printf("ENGINE-MISMATCH property=%s %s notes=%v\n", id, rf.Sig, rf.Notes)
@@ -467,7 +487,11 @@ func runJobs(l *Loaded, fn *ssa.Function, g *JobGroup, argLists [][]int64, tier 
 			if !checkDeadline.IsZero() && checkDeadline.Before(dl) {
 				dl = checkDeadline
 			}
-			res := Explore(l.prog, fn, args, ExploreOpts{Workers: workersPer, Solver: solver, TimeoutMs: to, Budget: budget, MaxPaths: g.MaxPaths, MaxFailures: 5000, Verbose: false, Deadline: dl})
+			maxFail := g.MaxFailures
+			if maxFail == 0 {
+				maxFail = 5000
+			}
+			res := Explore(l.prog, fn, args, ExploreOpts{Workers: workersPer, Solver: solver, TimeoutMs: to, Budget: budget, MaxPaths: g.MaxPaths, MaxFailures: maxFail, Verbose: false, Deadline: dl})
 			if verbose {
 				fmt.Fprintf(os.Stderr, "job %s%v: paths=%d %v wall=%.1fs\n", g.Name, xs, res.Paths, res.Counts, res.WallS)
 			}
